@@ -65,6 +65,7 @@ def run(chk, prog):
             writes = ctx.calls("std::io::Write::write_all", "tokio::io::util::async_write_ext::AsyncWriteExt::write_all")
             if not persists:
                 continue
+            async_write_flush_rule(chk, ctx, "R1", [bb for bb, _ in persists], "persist")
             # persist only after the write succeeded
             wpos = []
             for bb, t in writes:
